@@ -96,7 +96,7 @@ def enum(pkg):
 
 def run_symgo(hdir, cfg, tcfg, out):
     cmd = [SYMGO, "run", "-repo", REPO, "-pkgs", ",".join(cfg["pkgs"]), "-harness", hdir,
-           "-units", tcfg.get("units", cfg.get("units", ".*")), "-j", str(tcfg.get("j", 16)), "-out", out]
+           "-units", os.environ.get("VERIF_UNITS") or tcfg.get("units", cfg.get("units", ".*")), "-j", str(tcfg.get("j", 16)), "-out", out]
     for k in ("unwind", "steps", "maxpaths", "timeout", "qtimeout", "fbtimeout", "maxdepth", "rlimit", "fallback", "solver", "params"):
         if k in tcfg:
             cmd += ["-" + k, str(tcfg[k])]
